@@ -53,6 +53,17 @@ CHECKS = {
   note='Trusted: sympy srepr/parse_expr round trip, json.dumps determinism, pandas hashing; dict-key extraction '
        'recognises the idioms listed in DESIGN.md (literal, helper extension, delegation, cls(**d)).',
   ref='DESIGN.md §2 C12'),
+ 'C05': dict(
+  technique='def-use / index-role analysis of the matrix construction, single-ordering-source and set-order-leak '
+            'dataflow, builder relabel discipline and graph ownership (who-may-write), typestate for replaced '
+            'compartments over the whole package, serialisation key/index agreement',
+  text='O1-O7 decide, on the current source, the structural facts that make graph, matrix, amounts, names, inputs '
+       'and equations describe one system in one order: every violation has a concrete system as witness '
+       '(transposed matrix, dropped output term, insertion-order enumeration, lost relabel, duplicated stale node, '
+       'filtered substitution, mis-indexed edges in to_dict).',
+  note='Not decided: correctness of the ordering routine itself, to_compartmental_system term matching, symbolic '
+       'mass balance. Builder calls are recognised by method name.',
+  ref='DESIGN.md §2 C05'),
 }
 NA = {}
 
